@@ -23,7 +23,27 @@ import (
 )
 
 // structs for which a Lean structure is generated, in dependency order
-var genStructs = []string{"pathExpression", "Route", "curlyRoute", "WebService", "routeCandidate", "dispatcherCandidate", "sortableRouteCandidates", "sortableDispatcherCandidates", "Request", "Container"}
+var genStructs = []string{"pathExpression", "Route", "curlyRoute", "WebService", "routeCandidate", "dispatcherCandidate", "sortableRouteCandidates", "sortableDispatcherCandidates", "Request", "Container", "CrossOriginResourceSharing"}
+
+// effect types: what a function does to a `*Response` / a `*FilterChain` is a log the function returns
+//
+//	resp.AddHeader(k, v)            resp := push resp (k, v)
+//	chain.ProcessFilter(req, resp)  chain := push chain resp     (what had been added when control was passed on)
+var effectTypes = map[string]string{"*Response": "RespLog", "*FilterChain": "ChainLog"}
+
+// mutates: the pointer parameters (receiver included) a function changes, by name, in the order in
+// which their final values are appended to the result.  The translator checks the list: an effect, a field
+// assignment or a call that changes a pointer parameter which is not listed fails the translation.
+var mutates = map[string][]string{
+	"CrossOriginResourceSharing.Filter":                      {"resp", "chain"},
+	"CrossOriginResourceSharing.doActualRequest":             {"resp"},
+	"CrossOriginResourceSharing.doPreflightRequest":          {"c", "resp"},
+	"CrossOriginResourceSharing.setOptionsHeaders":           {"resp"},
+	"CrossOriginResourceSharing.setAllowOriginHeader":        {"resp"},
+	"CrossOriginResourceSharing.checkAndSetExposeHeaders":    {"resp"},
+	"CrossOriginResourceSharing.checkAndSetAllowCredentials": {"resp"},
+	"Container.OPTIONSFilter":                                {"resp", "chain"},
+}
 var isGenStruct = map[string]bool{}
 
 // flattenRecv: targets translated before struct support whose receiver stays flattened into
@@ -78,6 +98,9 @@ func leanTypeExt(e ast.Expr) string {
 			return "GoErr"
 		}
 	case *ast.StarExpr:
+		if et, ok := effectTypes[src(x)]; ok {
+			return et
+		}
 		switch src(x.X) {
 		case "http.Request":
 			return "HttpRequest"
@@ -135,7 +158,7 @@ func genStructDecls() string {
 		fmt.Fprintf(&b, "/-- `%s` (the fields the translated functions read or set) -/\nstructure %s where\n", st, goName(st))
 		n := 0
 		for _, f := range fields {
-			lt := leanType(structFields[st][f])
+			lt := fieldLeanType(st, f)
 			if lt == "" || !usedFields[st][f] {
 				continue
 			}
@@ -151,6 +174,24 @@ func genStructDecls() string {
 }
 
 var structFieldOrder = map[string][]string{}
+
+// fieldLeanType: a field of function type can be nil and is tested for it: it is an Option
+func fieldLeanType(st, f string) string {
+	ft := structFields[st][f]
+	lt := leanType(ft)
+	if lt == "" {
+		return ""
+	}
+	if _, isFn := resolve(ft).(*ast.FuncType); isFn {
+		return "Option (" + lt + ")"
+	}
+	return lt
+}
+
+func isFuncField(st, f string) bool {
+	_, isFn := resolve(structFields[st][f]).(*ast.FuncType)
+	return isFn
+}
 
 // usedFields: the fields some translated function reads or sets; only these are emitted, so that a new
 // field nobody translated touches leaves the generated file as it was
@@ -226,6 +267,9 @@ func (t *tr) typeOf(e ast.Expr) ast.Expr {
 			return t.fd.Recv.List[0].Type
 		}
 		if ty, ok := t.paramStruct[x.Name]; ok {
+			return ty
+		}
+		if ty, ok := pkgVarTypes[x.Name]; ok {
 			return ty
 		}
 		if v, ok := pkgVars[x.Name]; ok {
@@ -345,6 +389,18 @@ func (t *tr) typedCall(c *ast.CallExpr) (string, bool, bool) {
 		}
 		fail("method %s of *regexp.Regexp", sel.Sel.Name)
 	}
+	// a call through a field of function type: c.F(x)
+	if fst, fptr := structName(t.typeOf(sel.X)); fst != "" && isGenStruct[fst] {
+		if _, isField := structFields[fst][sel.Sel.Name]; isField && isFuncField(fst, sel.Sel.Name) {
+			useField(fst, sel.Sel.Name)
+			a, _ := t.expr(sel.X)
+			if fptr {
+				a = "(← deref " + a + ")"
+			}
+			args, _ := t.args(c.Args)
+			return "((← deref " + a + "." + mangle(sel.Sel.Name) + ") " + strings.Join(args, " ") + ")", true, true
+		}
+	}
 	st, ptr := structName(rt)
 	named := ""
 	if id, ok := rt.(*ast.Ident); ok {
@@ -386,6 +442,16 @@ func (t *tr) typedCall(c *ast.CallExpr) (string, bool, bool) {
 		} else if fd.Recv != nil && len(fd.Recv.List[0].Names) == 1 && recvUsed[key] {
 			a, m := t.expr(sel.X)
 			mon = mon || m
+			// value receiver called through a pointer: dereference; pointer receiver called on a value: its address
+			_, calleePtr := fd.Recv.List[0].Type.(*ast.StarExpr)
+			if st != "" {
+				if ptr && !calleePtr {
+					a = "(← deref " + a + ")"
+					mon = true
+				} else if !ptr && calleePtr {
+					a = "(some " + a + ")"
+				}
+			}
 			args = append([]string{a}, args...)
 		}
 		return "(← " + leanName(key) + " X " + strings.Join(args, " ") + ")", true, true
@@ -695,4 +761,149 @@ func (t *tr) noEscape(name string) {
 	if !ok {
 		fail("the pointer %s := &T{…} is copied", name)
 	}
+}
+
+// paramNames: the names of the receiver and the parameters of a function, in call order
+func paramNames(fd *ast.FuncDecl) (recv string, params []string) {
+	if fd.Recv != nil && len(fd.Recv.List) == 1 && len(fd.Recv.List[0].Names) == 1 {
+		recv = fd.Recv.List[0].Names[0].Name
+	}
+	for _, p := range fd.Type.Params.List {
+		for _, n := range p.Names {
+			params = append(params, n.Name)
+		}
+	}
+	return
+}
+
+// isPointerParam: the named receiver / parameter of the function being translated has pointer type
+func (t *tr) isPointerParam(name string) bool {
+	if name == t.recv && t.fd.Recv != nil {
+		_, ok := t.fd.Recv.List[0].Type.(*ast.StarExpr)
+		return ok
+	}
+	for _, p := range t.fd.Type.Params.List {
+		for _, n := range p.Names {
+			if n.Name == name {
+				_, ok := p.Type.(*ast.StarExpr)
+				return ok
+			}
+		}
+	}
+	return false
+}
+
+// changed: `name` is changed here; a pointer parameter must be listed in `mutates`
+func (t *tr) changed(name string) {
+	if t.isPointerParam(name) {
+		for _, m := range mutates[t.key] {
+			if m == name {
+				return
+			}
+		}
+		fail("%s changes what its pointer parameter %s points to, which `mutates` does not list", t.key, name)
+	}
+}
+
+// effectStmt: statements that change a log or call a function that changes its pointer parameters
+func (t *tr) effectStmt(ind int, c *ast.CallExpr) bool {
+	sel, ok := c.Fun.(*ast.SelectorExpr)
+	if !ok {
+		return false
+	}
+	if id, ok := sel.X.(*ast.Ident); ok {
+		switch src(t.typeOf(id)) {
+		case "*Response":
+			if sel.Sel.Name == "AddHeader" && len(c.Args) == 2 {
+				k, _ := t.expr(c.Args[0])
+				v, _ := t.expr(c.Args[1])
+				t.changed(id.Name)
+				t.line(ind, "%s := push %s (%s, %s)", t.lname(id.Name), t.lname(id.Name), k, v)
+				return true
+			}
+			fail("method %s of *Response", sel.Sel.Name)
+		case "*FilterChain":
+			if sel.Sel.Name == "ProcessFilter" && len(c.Args) == 2 {
+				r, _ := t.expr(c.Args[1])
+				t.changed(id.Name)
+				t.line(ind, "%s := push %s %s", t.lname(id.Name), t.lname(id.Name), r)
+				return true
+			}
+			fail("method %s of *FilterChain", sel.Sel.Name)
+		}
+	}
+	// a call of a target that changes some of its pointer parameters
+	st, _ := structName(t.typeOf(sel.X))
+	key := st + "." + sel.Sel.Name
+	muts, ok := mutates[key]
+	if !ok || !isTarget[key] {
+		return false
+	}
+	fd := funcs[key]
+	recv, params := paramNames(fd)
+	if fd.Type.Results != nil && len(fd.Type.Results.List) > 0 {
+		fail("call of %s, which has results and changes its parameters, as a statement", key)
+	}
+	args, _ := t.args(c.Args)
+	var all []string
+	if recv != "" && isGenStruct[st] {
+		a, _ := t.expr(sel.X)
+		// a pointer-receiver method called on a struct value takes its address
+		if _, isPtrRecv := fd.Recv.List[0].Type.(*ast.StarExpr); isPtrRecv {
+			if _, ptr := structName(t.typeOf(sel.X)); !ptr {
+				a = "(some " + a + ")"
+			}
+		} else if _, ptr := structName(t.typeOf(sel.X)); ptr {
+			a = "(← deref " + a + ")"
+		}
+		all = append(all, a)
+	}
+	all = append(all, args...)
+	var outs []string
+	var unwrap []bool
+	for _, m := range muts {
+		var arg ast.Expr
+		if m == recv {
+			arg = sel.X
+		} else {
+			for i, p := range params {
+				if p == m && i < len(c.Args) {
+					arg = c.Args[i]
+				}
+			}
+		}
+		id, ok := arg.(*ast.Ident)
+		if !ok {
+			fail("the argument for the changed parameter %s of %s is not a variable", m, key)
+		}
+		t.changed(id.Name)
+		outs = append(outs, id.Name)
+		// the callee hands back an Option (pointer receiver) where the caller holds a value
+		uw := false
+		if m == recv {
+			if _, isPtrRecv := fd.Recv.List[0].Type.(*ast.StarExpr); isPtrRecv {
+				if _, ptr := structName(t.typeOf(sel.X)); !ptr {
+					uw = true
+				}
+			}
+		}
+		unwrap = append(unwrap, uw)
+	}
+	var tmps []string
+	for range outs {
+		tmps = append(tmps, t.fresh())
+	}
+	t.line(ind, "let %s ← %s X %s", tuple(tmps), leanName(key), strings.Join(all, " "))
+	for i, o := range outs {
+		name := mangle(o)
+		if t.sc.has(o) {
+			name = t.lname(o)
+		}
+		if unwrap[i] {
+			t.line(ind, "%s := (← deref %s)", name, tmps[i])
+		} else {
+			t.line(ind, "%s := %s", name, tmps[i])
+		}
+	}
+	return true
 }
